@@ -67,10 +67,20 @@ def worker() -> G.Worker:
     return _worker
 
 
+_hangs: dict[str, int] = {}
+
+
 def run(spec: dict) -> dict:
+    """one watchdogged real call (cached); after two hangs of the same generator / entry point the rest of
+    its cases are not attempted any more (each hang costs the full timeout)"""
     k = json.dumps(spec, sort_keys=True)
     if k not in _cache:
+        who = spec.get("op") or spec.get("gen")
+        if _hangs.get(who, 0) >= 2:
+            return {"ok": False, "err": "SkippedAfterHang", "msg": f"{who} hung twice before"}
         _cache[k] = worker().run(spec, TIMEOUT)
+        if _cache[k].get("hang"):
+            _hangs[who] = _hangs.get(who, 0) + 1
     return _cache[k]
 
 
@@ -459,6 +469,19 @@ def oracle(ctx: Ctx, deep: bool = False):
                             seen.add(key)
                             yield Violation(key, f"{name} raises {res.get('err')}: {res.get('msg')} for a feasible pair",
                                             {"op": "generator", "spec": s, "observed": res.get("err"), "msg": res.get("msg")})
+    # the bisection wrapper driven by a rasteriser whose acceleration crosses the target at a slope that is
+    # not a float: the tolerance band is never met, the documented ValueError must be raised (no hang)
+    for thr in (16 / 3, 0.1, 7.3):
+        res = run({"op": "bisect_script", "n": 8, "acc": 4, "script": [], "threshold": thr})
+        ctx.count(("bisect-threshold", thr), True, bucket="oracle/bisection-unreachable/" +
+                  ("hang" if res.get("hang") else res.get("err", "returned")))
+        if res.get("hang") or res.get("ok") or res.get("err") != "ValueError":
+            key = "hang-bisection-wrapper" if res.get("hang") else "bisection-wrapper-no-error"
+            if key not in seen:
+                seen.add(key)
+                yield Violation(key, "VariableDensityPoissonMaskFunc.poisson with an unreachable tolerance: "
+                                + ("did not return" if res.get("hang") else f"{res.get('err', 'returned a mask')}"),
+                                {"op": "bisect-threshold", "threshold": thr, "observed": "hang" if res.get("hang") else res.get("err", "returned")})
     # rank errors: documented ValueError
     for name in G.GENERATORS:
         for mode in G.modes_of(name):
@@ -486,6 +509,9 @@ def oracle(ctx: Ctx, deep: bool = False):
 
 def replay(rep: dict) -> bool:
     """Re-run a recorded failing case on the implementation; True when it still fails."""
+    if rep.get("op") == "bisect-threshold":
+        res = worker().run({"op": "bisect_script", "n": 8, "acc": 4, "script": [], "threshold": rep["threshold"]}, TIMEOUT)
+        return bool(res.get("hang") or res.get("ok") or res.get("err") != "ValueError")
     if rep.get("op") == "generator":
         s = rep["spec"]
         res = worker().run(s, TIMEOUT)
